@@ -15,7 +15,7 @@ from mc.core import Result, SubCheck, jhash
 
 PROPERTY = "C16"
 ASSUMPTIONS = [
-    "problems: lattice stream multisets of <=2 streams x zone labels with printable names the readers do not rewrite (no digits-only names, no dots) x {no utilities, an isothermal pair, a 'Both' level}",
+    "problems: lattice stream multisets of <=2 streams x zone labels and stream names with printable characters incl. space, '/', '#', ',', ';', quotes (only names the readers rewrite by design - digits-only, dots - are excluded) x {no utilities, an isothermal pair, a 'Both' level}",
     "channels: dict, validated model, value-with-unit dict, JSON file, CSV directory, CSV pair, XLSX workbook with the template sheets; the service function and the PinchProblem wrapper; "
     "files are written by the harness into a private temporary directory; results are compared modulo the project (root zone) name, which the wrapper derives from the file name",
     "wrapper histories: every sequence of <=4 (quick) / <=5 (thorough) of {load a, load b, target, export}; the service is counted through a harness-side wrapper to observe caching",
@@ -23,7 +23,7 @@ ASSUMPTIONS = [
     "uniqueness is checked the way Excel compares names (case-insensitively) and exactly",
 ]
 FORBIDDEN = set(":\\/?*[]")
-ZONE_NAMES = ["A", "Area B", "Plant-1/Unit x"]
+ZONE_NAMES = ["A", "Area B", "Plant-1/Unit x", "#2 Line", 'Tank, "big"; no 3']
 
 
 def csv_text(rows):
@@ -113,7 +113,8 @@ def chan_cases(tier, inst):
     k = 0
     for ms in P.stream_multisets(inst, 3, 2, cps=(1, 2) if tier == "thorough" else (1,), dts=(1,), iso=True):
         n = len(ms)
-        for zi, zones in enumerate([[ZONE_NAMES[0]] * n, [ZONE_NAMES[1], ZONE_NAMES[2]][:n] if n == 2 else [ZONE_NAMES[2]]]):
+        for zi, zones in enumerate([[ZONE_NAMES[0]] * n, [ZONE_NAMES[1], ZONE_NAMES[2]][:n] if n == 2 else [ZONE_NAMES[2]],
+                                    [ZONE_NAMES[3], ZONE_NAMES[4]][:n] if n == 2 else [ZONE_NAMES[3]]]):
             for ui in range(3):
                 k += 1
                 if tier == "quick" and (k % 3 != 0):
@@ -128,7 +129,7 @@ def chan_run(case, res: Result):
 
     inst = tuple(case["inst"])
     prob = A.problem([tuple(s) for s in case["streams"]], case["zones"], utilities=usets(inst)[case["uset"]],
-                     names=[f"Str {chr(65 + i)}" for i in range(len(case["streams"]))])
+                     names=[f"Str {chr(65 + i)}" if case["zones"][0] != ZONE_NAMES[3] else f"Cooler #{i + 1}, 'x'" for i in range(len(case["streams"]))])
     ref = numbers(pinch_analysis_service(copy.deepcopy(prob)))
     tmp = tempfile.mkdtemp(prefix="c16_", dir="/var/tmp")
     n_tr = 1
@@ -300,6 +301,13 @@ def name_cases(tier, inst):
     for n in range(1, nmax + 1):
         for seq in itertools.product(range(len(NAMES)), repeat=n):
             yield {"seq": list(seq)}
+    # long runs: the same name k times (suffixes with 2 and 3 digits), alone and after one other name
+    for i in range(len(NAMES)):
+        for k in (9, 10, 11, 12, 101):
+            yield {"seq": [i] * k}
+            for j in range(len(NAMES)):
+                if j != i and k <= 12:
+                    yield {"seq": [j] + [i] * k}
 
 
 def name_run(case, res: Result):
@@ -381,7 +389,7 @@ SUBCHECKS = {
         describe="_unique_sheet_name on every sequence of names from a tricky alphabet",
         rule="case = sequence; non-trivial = a repeated or over-long name occurs",
         cases=name_cases, run=name_run,
-        bound=lambda t: "all sequences of <=3 of 12 names" if t == "quick" else "all sequences of <=4 of 12 names",
+        bound=lambda t: ("all sequences of <=3 of 12 names" if t == "quick" else "all sequences of <=4 of 12 names") + " + runs of 9..12 and 101 repetitions of each name",
     ),
     "workbook": SubCheck(
         name="workbook",
